@@ -1,7 +1,7 @@
 (* C09 -- Schedules conclude, repeat and report exhaustion exactly as documented
    Property theorems only: each proof is one application of a lemma proved in Proofs/, followed by Print Assumptions. *)
 From Coq Require Import ZArith List Bool.
-From CS Require MSTerm OnlineFlags Flags.
+From CS Require MSTerm OnlineFlags Flags RevConv RevBridge4 RevolveRun.
 From CS Require Import Actions NAdvance Multistage Exec Sched RunFacts Projections BasicInv MultistageRun AllocTotal TLBridge MixBridge.
 Import ListNotations.
 Open Scope Z_scope.
@@ -86,6 +86,32 @@ Theorem C09_multistage_terminates :
 Proof. exact (@AllocTotal.multistage_terminates). Qed.
 Print Assumptions C09_multistage_terminates.
 End M_C09_multistage_terminates.
+
+(* the offline Revolve schedule concludes *)
+Module M_C09_revolve_terminates.
+Import RevolveRun.
+Theorem C09_revolve_terminates :
+  forall (tj : NAdvance.traj) (N ram disk uf ub wd rd : Z),
+         1 <= N ->
+         0 <= ram ->
+         (2 <= N -> 1 <= ram) ->
+         0 < uf ->
+         exists (L : list Ops.op) (K : nat),
+           RevConv.sequence RevConv.KRevolve N ram disk uf ub wd rd = Actions.Ok L /\
+           (forall k : nat,
+            (K <= k)%nat ->
+            let
+            '(s', m, ls) :=
+             Sched.run_ops (RevBridge4.rev_xparams N ram)
+               {|
+                 Sched.ob := Sched.ORevF RevConv.KRevolve N ram disk (RevConv.init_r L); Sched.started := false
+               |} Sched.mon0 (repeat Sched.Next k) in
+             RunFacts.mon_ok m /\
+             RunFacts.no_raise ls /\
+             Sched.is_exhausted s' = true /\ Exec.fwd_total (Exec.cnt (Sched.mx m)) = Inst.TC tj N ram).
+Proof. exact (@RevolveRun.revolve_terminates). Qed.
+Print Assumptions C09_revolve_terminates.
+End M_C09_revolve_terminates.
 
 (* the offline Mixed schedule concludes: exhausted within N (N + 3) + N + 2 requests *)
 Module M_C09_mixed_terminates.
